@@ -274,6 +274,10 @@ def run(ctx):
     d10_temp_reg_distinct(db, rep)
     d11_exec_only_if_executable(db, rep)
     d12_gp_alloc_checked(db, rep)
+    # D13: "no failure of the operating system to provide ... an executable mapping crashes the process": the allocator's failure
+    # exits release the global mutex (rule shared with C08 D2)
+    import importlib as _il13
+    _il13.import_module("rules.c08").lock_released_on_every_exit(db, rep, "D13-FAILURE-EXIT-UNLOCKED", "orccodemem")
     # D8: the executor a generated wrapper hands to a detached code object carries n and (for 2-D) m: emulation, the fallback
     # of every wrapper, reads them from there (shared with C07 D1)
     import importlib as _il
